@@ -178,10 +178,32 @@ Definition target (base ref : str) : option str :=
   | None => None
   end.
 
-(* base.navigate(ref) rendered as [result] is the RFC target *)
-Definition spec_navigate (base ref result : str) : bool :=
+(* RFC 3986 6.2.2.1: scheme and host are case-insensitive (normal form: lower
+   case).  The host is the authority after its last "@" (userinfo is
+   case-sensitive, port digits have no case).  ASCII only. *)
+Definition lower_host (a : str) : str :=
+  let '(ui, found, hp) := rpartition_at AT a in
+  if found then ui ++ AT :: lower hp else lower a.
+
+Definition norm_case (u : uri) : uri :=
+  mkUri (option_map lower (scheme u)) (option_map lower_host (authority u))
+        (path u) (query u) (fragment u).
+
+Definition fold_case (t : str) : str := recompose (norm_case (parse t)).
+
+(* base.navigate(ref) rendered as [result] is exactly the RFC target text
+   (up to "" = "/" under an authority) *)
+Definition spec_navigate_strict (base ref result : str) : bool :=
   match target base ref with
   | Some t => str_eqb (canon result) t
+  | None => false
+  end.
+
+(* ... or differs from it only in the case of scheme and host: navigate
+   normalises case (6.2.2.1), the RFC's 5.2 algorithm copies it verbatim *)
+Definition spec_navigate (base ref result : str) : bool :=
+  match target base ref with
+  | Some t => str_eqb (fold_case (canon result)) (fold_case t)
   | None => false
   end.
 
@@ -202,14 +224,16 @@ Definition spec_clean (result : str) : bool :=
   | c :: _ => (c =? SL) && negb (existsb is_dot_seg (split SL (path u)))
   end.
 
-(* normalize(): RFC 6.2.2.3 on a URI with an authority, and idempotent *)
+(* normalize(): RFC 6.2.2.1 (case) + 6.2.2.3 (dot segments) on a URI with an
+   authority, and idempotent *)
 Definition spec_normalized (before after1 after2 : str) : bool :=
   str_eqb after1 after2 &&
   (let u := parse before in
    match authority u, remove_dot_segments (path u) with
    | Some _, Some p =>
        str_eqb (canon after1)
-               (recompose (root_if_empty (mkUri (scheme u) (authority u) p (query u) (fragment u))))
+               (recompose (norm_case (root_if_empty
+                  (mkUri (scheme u) (authority u) p (query u) (fragment u)))))
    | None, _ => true
    | _, None => false
    end).
